@@ -5,7 +5,9 @@ package main
 // encrypting wrapper, through the typed API, TranslatorService.Tokenize/Detokenize and DataTokenizer.
 // Besides the random histories, every token type x store kind gets the maintenance families
 // "tokenize -> acra-tokens disable -> tokenize again -> enable -> tokenize -> detokenize" and
-// "tokenize -> remove -> tokenize twice -> detokenize" (c10MaintenanceFamilies).
+// "tokenize -> remove -> tokenize twice -> detokenize" (c10MaintenanceFamilies), and e-mail values of
+// every length around the generator's thresholds are tokenized with every TLD index forced through the
+// tape (c10EmailSweep, c10email.go - also home of the e-mail shape oracle).
 // A scenario (history on an empty store) is one case replayed on Model.RunTokens; the oracles below
 // judge the implementation on their own (shape, reversibility, foreign client, consistency - also
 // under chosen interleavings of concurrent calls -, two values one token).
@@ -18,7 +20,6 @@ import (
 	"math/big"
 	"os"
 	"path/filepath"
-	"regexp"
 	"strings"
 
 	"acra-vh/vh"
@@ -97,8 +98,6 @@ func fromGo(ty int, v interface{}) ([]byte, bool) {
 func i32(x int32) []byte { b := make([]byte, 4); binary.LittleEndian.PutUint32(b, uint32(x)); return b }
 func i64(x int64) []byte { b := make([]byte, 8); binary.LittleEndian.PutUint64(b, uint64(x)); return b }
 
-var emailRe = regexp.MustCompile(`^[[:alnum:]]+@[[:alnum:]]+\.[[:alpha:]]+$`)
-
 // shapeProblem is the format-preservation oracle ("" = fine).
 func shapeProblem(ty int, v, tok []byte) string {
 	charset := pseudonymization.VerifCharset()
@@ -128,22 +127,7 @@ func shapeProblem(ty int, v, tok []byte) string {
 			return fmt.Sprintf("string token %q does not have the length/alphabet for a %d byte value", tok, len(v))
 		}
 	case tEmail:
-		if len(tok) != len(v) {
-			return fmt.Sprintf("e-mail token length %d != value length %d", len(tok), len(v))
-		}
-		if len(v) < len("a@b.cc") {
-			if !inCharset(tok) {
-				return fmt.Sprintf("short e-mail token %q is not alphanumeric", tok)
-			}
-			return ""
-		}
-		okTLD := false
-		for _, t := range append(pseudonymization.VerifGenericTLDs(), pseudonymization.VerifCcTLDs()...) {
-			okTLD = okTLD || bytes.HasSuffix(tok, []byte(t))
-		}
-		if !emailRe.Match(tok) || !okTLD {
-			return fmt.Sprintf("e-mail token %q is not e-mail shaped", tok)
-		}
+		return c10EmailShapeProblem(v, tok) // c10email.go: the full "e-mail shaped" statement
 	}
 	return ""
 }
@@ -177,6 +161,7 @@ type tokEnv struct {
 	disabledSince bool           // some record may be disabled right now
 	issuedAt      map[string]int // ctx|ty|token -> position in the history where it was FIRST issued (markIssued)
 	removedAt     int            // position of the last maintenance pass that removed records (-1: none)
+	dtForced      [][]byte       // draws forced on the next DataTokenizer.Tokenize call (c10EmailSweep)
 }
 
 // c10Cons is what the consistency oracle remembers about one (context, type, value): the token that the
@@ -347,7 +332,7 @@ func typedTokenize(tk common.Pseudoanonymizer, consistent bool, ty int, c tctx, 
 func (e *tokEnv) judge(consistent bool, ty int, c tctx, v, tok []byte, chunks [][]byte, desc string) {
 	e.rep.OracleChecks++
 	if p := shapeProblem(ty, v, tok); p != "" {
-		e.violate("token-shape", desc+": "+p)
+		e.violate("token-shape", fmt.Sprintf("%s: %s; crypto/rand draws of the call: %x", desc, p, chunks))
 	}
 	e.rep.OracleChecks++
 	if old, ok := e.issued[ikey(c, ty, tok)]; ok && !bytes.Equal(old, v) && !e.removedSince(ikey(c, ty, tok)) {
@@ -470,7 +455,8 @@ func parseDecimal(s []byte) (*big.Int, bool) {
 }
 
 func (e *tokEnv) dtTok(consistent bool, ty int, c tctx, text []byte) {
-	tape := vh.StartScriptTape(e.r, nil)
+	tape := vh.StartScriptTape(e.r, e.dtForced)
+	e.dtForced = nil
 	o := vh.Guard(func() vh.Outcome {
 		b, err := e.dt.Tokenize(text, c.tc(), dtSetting(ty, consistent))
 		if err != nil {
@@ -516,7 +502,7 @@ func (e *tokEnv) dtTok(consistent bool, ty int, c tctx, text []byte) {
 			e.violate("token-shape", fmt.Sprintf("%s: token %q is not a %s", desc, tok, ttCfg[ty]))
 		}
 	} else if p := shapeProblem(ty, text, tok); p != "" {
-		e.violate("token-shape", desc+": "+p)
+		e.violate("token-shape", fmt.Sprintf("%s: %s; crypto/rand draws of the call: %x", desc, p, tape.Chunks))
 	}
 	// text-level bookkeeping uses the canonical text
 	e.rep.OracleChecks++
@@ -1191,4 +1177,7 @@ func runC10(rep *vh.Report, r *vh.Rng, n int, thorough bool) {
 		return []ccall{{true, tBytes, alice, v}, {true, tBytes, alice, v}}, &ccall{true, tBytes, alice, v}
 	}, []int{2, 2}, lim)
 	exhaustive("3-same-str", same(3, tStr), []int{3, 3, 3}, lim)
+
+	// e-mail tokens: every length around the code's thresholds x every TLD index (forced draw)
+	c10EmailSweep(rep, vh.NewRng(r.U64()), f, thorough)
 }
